@@ -158,6 +158,23 @@ impl Api for SD {
                     buf = a[0].items().iter().map(|x| sp(x.bytes())).collect();
                     Val::N
                 }
+                "reserve" => {
+                    buf.reserve(a[0].int() as usize);
+                    Val::N
+                }
+                "shrinkfit" => {
+                    buf.shrink_to_fit();
+                    Val::N
+                }
+                "shrinkto" => {
+                    buf.shrink_to(a[0].int() as usize);
+                    Val::N
+                }
+                "clonefrom" => {
+                    let other = PathBuf::from(OsStr::from_bytes(a[0].bytes()));
+                    buf.clone_from(&other);
+                    Val::N
+                }
                 _ => c("badop", vec![]),
             };
             out.push(c("t", vec![b(pbytes(&buf)), res, Val::N]));
